@@ -4502,6 +4502,23 @@ class NetCDFRead(IORead):
                         grid_mapping_ncvar
                     ].copy()
 
+                    # Report the listed coordinates that are not
+                    # coordinates of this data variable
+                    for ncvar in coordinates:
+                        if ncvar not in ncvar_to_key:
+                            self._add_message(
+                                field_ncvar,
+                                ncvar,
+                                message=(
+                                    "Grid mapping coordinate variable",
+                                    "is not used by data variable",
+                                ),
+                                attribute={
+                                    field_ncvar + ":grid_mapping": grid_mapping
+                                },
+                                conformance="5.6.requirement.3",
+                            )
+
                     # Convert netCDF variable names to internal identifiers
                     coordinates = [
                         ncvar_to_key[ncvar]
